@@ -4,21 +4,24 @@
        emplace s=K i=I v=N [via=type]   assign|ctor s=K from=J mv=0|1   swap s=K with=J   rel s=K with=J
        conv s=K a=<i s l f t m> v=N how=ctor|assign          converting constructor / assignment
        get_if s=K i=I [via=type]   holds s=K i=I   visit s=[K,..] [idx=1]
+       vcat s=[K,..] q=[Q,..] vis=cat|take     value categories (alts it, qx, id, tif only): variant K visited as Q
    new kind=opt alts=<i|f|t|m> n=N                  optional<T> slots and partner optional<U> slots
        reset s=K   null s=K how=ctor|assign   emplace s=K v=N   val s=K a=.. v=N how=ctor|assign
        assign|ctor s=K from=J mv=..   swap s=K with=J [via=member]   pset j=J [v=N]
        conv s=K from=J how=ctor|assign mv=..   rel s=K with=J   relm s=K with=J   reln s=K   relv s=K a=own|i v=N
-       has s=K   value_or s=K v=N [mv=1]   and_then s=K f=inc|none   or_else s=K [v=N] [mv=1]
+       has s=K   value_or s=K v=N [mv=1]   and_then s=K f=inc|none   or_else s=K [v=N] [mv=1]   ocat s=K q=Q [take=1]
    new kind=oref n=N                                optional<int&> slots over three int cells
        bind s=K c=C how=ctor|assign|emplace   null s=K how=..   reset s=K   assign|ctor   swap   write s=K v=N
        get s=K   rel s=K with=J   reln s=K   conv s=K
    new kind=exp alts=<TE> n=N                       expected<T,E> slots
        ctor_def|ctor_val|ctor_err s=K [v=N]   emplace s=K v=N   assign|ctor   swap   assign_unex s=K v=N
-       has s=K   value_or s=K v=N [mv=1]   and_then s=K f=inc|fail [v=N]   or_else s=K f=recover|same [v=N]
+       has s=K   value_or s=K v=N [mv=1]   and_then s=K f=inc|fail [v=N]   or_else s=K f=recover|same [v=N]   ecat s=K q=Q
    every answer is followed by ` |` and the state of all slots.
 
    values: i int, l long, s short (payload = value); f float (payload p = p/2, 1000 = NaN); t Trk, m Mo
-   (payload = value, -1 after being moved from).                                                         -/
+   (payload = value, -1 after being moved from); c d a b q x = Sm kinds, shown `<letter><value>.<mark>`: the mark
+   is the user-provided special member that produced the object last (1 copy ctor, 2 move ctor, 3 copy
+   assignment, 4 move assignment); c/d/a/b provide only that one member, q and x all four (x: throwing copy ctor).                                                         -/
 import Tetl.Proto
 import Tetl.C07.Model
 import Tetl.C07.Spec
@@ -27,16 +30,40 @@ open Tetl Tetl.Proto Tetl.C07
 
 inductive Ty where
   | int | lng | sht | flt | trk | mo | null
+  | kc | kd | ka | kb | kq | kx      -- Sm<Bits> of the harness: which special members are user-provided
   deriving Repr, DecidableEq, Inhabited
 
+/-- `g`: the mark of an `Sm` value = the user-provided special member that produced the object last
+    (1 copy ctor, 2 move ctor, 3 copy assignment, 4 move assignment; 0 = constructed from an `int`);
+    defaulted members copy the source's mark -/
 structure Val where
   ty : Ty
   n : Int
+  g : Nat := 0
   deriving Repr, DecidableEq, Inhabited
 
 def tyOf : Char → Option Ty
   | 'i' => some .int | 'l' => some .lng | 's' => some .sht | 'f' => some .flt
-  | 't' => some .trk | 'm' => some .mo | _ => none
+  | 't' => some .trk | 'm' => some .mo
+  | 'c' => some .kc | 'd' => some .kd | 'a' => some .ka | 'b' => some .kb | 'q' => some .kq | 'x' => some .kx
+  | _ => none
+
+def Ty.isSm : Ty → Bool
+  | .kc | .kd | .ka | .kb | .kq | .kx => true
+  | _ => false
+/-- user-provided copy ctor / move ctor / copy assignment / move assignment -/
+def Ty.ucc : Ty → Bool
+  | .trk | .kc | .kq | .kx => true
+  | _ => false
+def Ty.umc : Ty → Bool
+  | .trk | .mo | .kd | .kq | .kx => true
+  | _ => false
+def Ty.uca : Ty → Bool
+  | .trk | .ka | .kq | .kx => true
+  | _ => false
+def Ty.uma : Ty → Bool
+  | .trk | .mo | .kb | .kq | .kx => true
+  | _ => false
 
 def Ty.isInt : Ty → Bool
   | .int | .lng | .sht => true
@@ -44,7 +71,7 @@ def Ty.isInt : Ty → Bool
 def Ty.isArith (t : Ty) : Bool := t.isInt || t == .flt
 def Ty.isClass : Ty → Bool
   | .trk | .mo => true
-  | _ => false
+  | t => t.isSm
 
 def showV (v : Val) : String :=
   match v.ty with
@@ -54,24 +81,47 @@ def showV (v : Val) : String :=
   | .trk => s!"t{v.n}"
   | .mo => s!"m{v.n}"
   | .null => "-"
+  | .kc => s!"c{v.n}.{v.g}" | .kd => s!"d{v.n}.{v.g}" | .ka => s!"a{v.n}.{v.g}"
+  | .kb => s!"b{v.n}.{v.g}" | .kq => s!"q{v.n}.{v.g}" | .kx => s!"x{v.n}.{v.g}"
 
 /-- `mk<T>(n)` of the harness -/
-def mkV (t : Ty) (n : Int) : Val := ⟨t, n⟩
-def nullv : Val := ⟨.null, 0⟩
+def mkV (t : Ty) (n : Int) : Val := ⟨t, n, 0⟩
+def nullv : Val := ⟨.null, 0, 0⟩
 
-/-- moved-from state of an element -/
-def mvd (v : Val) : Val := if v.ty.isClass then { v with n := -1 } else v
+def mark (v : Val) (m : Nat) : Val := if v.ty.isSm then { v with g := m } else v
+
+/-- the special members of the element types of the harness (Trk, Mo: user-provided, unmarked, a moved-from
+    object holds -1; Sm kinds: each user-provided member leaves its mark; everything else is the plain copy) -/
+def el : Elem Val where
+  cc := fun s => if s.ty.ucc then mark s 1 else s
+  mc := fun s => if s.ty.umc then (mark s 2, { s with n := -1 }) else (s, s)
+  ca := fun _ s => if s.ty.uca then mark s 3 else s
+  ma := fun _ s => if s.ty.uma then (mark s 4, { s with n := -1 }) else (s, s)
+
+/-- the object an `emplace(mk<T>(n))` / in-place construction creates: move constructed from the temporary -/
+def mkArg (t : Ty) (n : Int) : Val := (el.mc (mkV t n)).1
+
+/-- [variant.assign]/2.4, reinit-expected: potentially-throwing copy constructor, non-throwing move constructor -/
+def fb (v : Val) : Bool := v.ty == .kx
+
+/-- `is_trivially_copy_constructible` etc. of an alternative type -/
+def Ty.tcc (t : Ty) : Bool := !t.ucc && t != .mo
+def Ty.tmc (t : Ty) : Bool := !t.umc
+def Ty.tca (t : Ty) : Bool := t.tcc && !t.uca
+def Ty.tma (t : Ty) : Bool := t.tmc && !t.uma
+def cfgOf (tys : List Ty) : Cfg :=
+  ⟨tys.length, tys.all (·.tcc), tys.all (·.tmc), tys.all (·.tca), tys.all (·.tma)⟩
 
 /-- value of `T(x)` -/
 def convV (to : Ty) (v : Val) : Val :=
   if to == v.ty then v
   else if v.ty == .flt then
-    (if to == .flt then v else ⟨to, Int.tdiv v.n 2⟩)      -- float → integer / Trk(int) / Mo(int): truncation
+    (if to == .flt then v else ⟨to, Int.tdiv v.n 2, 0⟩)      -- float → integer / Trk(int) / Mo(int): truncation
   else
-    (if to == .flt then ⟨.flt, 2 * v.n⟩ else ⟨to, v.n⟩)
+    (if to == .flt then ⟨.flt, 2 * v.n, 0⟩ else ⟨to, v.n, 0⟩)
 
 def bump (v : Val) : Val :=
-  if v.ty == .flt then (if v.n == 1000 then v else { v with n := v.n + 2 }) else { v with n := v.n + 1 }
+  if v.ty == .flt then (if v.n == 1000 then v else { v with n := v.n + 2 }) else { v with n := v.n + 1, g := 0 }
 
 /-- numeric value ×2; `none` = NaN -/
 def num (v : Val) : Option Int :=
@@ -94,9 +144,7 @@ def convTab (a t : Ty) : Option Cand :=
     | .lng, .int | .int, .sht | .lng, .sht => some ⟨2, true⟩
     | .int, .flt | .sht, .flt | .lng, .flt => some ⟨2, true⟩   -- integer → floating: narrowing
     | .flt, .int | .flt, .lng | .flt, .sht => some ⟨2, true⟩   -- floating → integer: narrowing
-    | .int, .trk | .sht, .trk | .lng, .trk | .flt, .trk => some ⟨3, false⟩  -- Trk(int): user-defined
-    | .int, .mo | .sht, .mo | .lng, .mo | .flt, .mo => some ⟨3, false⟩
-    | _, _ => none
+    | _, _ => if a.isArith && t.isClass then some ⟨3, false⟩ else none    -- Trk(int), Mo(int), Sm(int): user-defined
 
 /-- `is_constructible_v<T, A>` for the element types of the harness -/
 def ctorOK (a t : Ty) : Bool :=
@@ -161,7 +209,7 @@ def fin (lv : Live) (mres : Except Err (String × List (V Val))) (sres : String)
 def ok (st : List (V Val)) : Except Err (String × List (V Val)) := .ok ("ok", st)
 
 /-- model side of an operation given as a variant `Op` -/
-def mop (lv : Live) (st : List (V Val)) (op : Op Val) : Except Err (List (V Val)) := step lv.cfg mvd st op
+def mop (lv : Live) (st : List (V Val)) (op : Op Val) : Except Err (List (V Val)) := step lv.cfg el st op
 
 def tyAt (lv : Live) (i : Nat) : Option Ty := lv.tys[i]?
 
@@ -171,9 +219,9 @@ def stepVar (lv : Live) (st : List (V Val)) (l : Line) : Option (DState × Strin
     match l.nat? "s", l.nat? "i", l.int? "v" with
     | some k, some i, some n =>
       (tyAt lv i).map fun t =>
-        let x := mkV t n
+        let x := mkArg t n
         fin lv ((mop lv st (.emplace k i x)).map fun st' => ("ret=" ++ showV x, st')) ("ret=" ++ showV x)
-          { lv with s := Spec.step mvd lv.s (.emplace k i x) }
+          { lv with s := Spec.step el fb lv.s (.emplace k i x) }
     | _, _, _ => none
   | "assign" | "ctor" =>
     match l.nat? "s", l.nat? "from", l.nat? "mv" with
@@ -182,13 +230,13 @@ def stepVar (lv : Live) (st : List (V Val)) (l : Line) : Option (DState × Strin
       else if mv == 0 && !lv.copyable then some (fin lv (.ok ("nc", st)) "nc" lv)
       else
         let op : Op Val := if l.op == "assign" then .assign k j (mv != 0) else .ctor k j (mv != 0)
-        some (fin lv ((mop lv st op).bind ok) "ok" { lv with s := Spec.step mvd lv.s op })
+        some (fin lv ((mop lv st op).bind ok) "ok" { lv with s := Spec.step el fb lv.s op })
     | _, _, _ => none
   | "swap" =>
     match l.nat? "s", l.nat? "with" with
     | some k, some j =>
       if k ≥ st.length || j ≥ st.length then none
-      else some (fin lv ((mop lv st (.swap k j)).bind ok) "ok" { lv with s := Spec.step mvd lv.s (.swap k j) })
+      else some (fin lv ((mop lv st (.swap k j)).bind ok) "ok" { lv with s := Spec.step el fb lv.s (.swap k j) })
     | _, _ => none
   | "rel" =>
     match l.nat? "s", l.nat? "with" with
@@ -214,10 +262,18 @@ def stepVar (lv : Live) (st : List (V Val)) (l : Line) : Option (DState × Strin
           | some t =>
             let x := convV t arg
             if how == "ctor" then (mop lv st (.make k i x)).bind ok
-            else if t.isClass then (mop lv st (.emplace k i x)).bind ok      -- operator=(T&&): emplace<T_j>
+            else if t.isClass then do
+              -- operator=(T&&): `get<j>(*this) = forward<T>(t)` when T_j is held (a temporary T_j(arg) is move
+              -- assigned), `emplace<T_j>(forward<T>(t))` otherwise
+              let d ← rd st k
+              if d.idx == i then do
+                let cur ← getAt d i
+                let st' ← put st k { d with val := (el.ma cur x).1 }
+                ok st'
+              else (mop lv st (.emplace k i x)).bind ok
             else do                                                      -- scalar T_j: variant(arg) then move assignment
               let d ← rd st k
-              let (d', _) ← assign lv.cfg mvd true d ⟨i, x⟩
+              let (d', _) ← assign lv.cfg el true d ⟨i, x⟩
               let st' ← put st k d'
               ok st'
       let (sres, s') : String × List (V Val) :=
@@ -226,7 +282,13 @@ def stepVar (lv : Live) (st : List (V Val)) (l : Line) : Option (DState × Strin
         | some i =>
           match lv.tys[i]? with
           | none => ("nc", lv.s)
-          | some t => ("ok", Spec.step mvd lv.s (.emplace k i (convV t arg)))
+          | some t =>
+            -- [variant.assign]/13: T_j held: assign `forward<T>(t)` to it; otherwise emplace<j>; [variant.ctor]: construct
+            let x := convV t arg
+            let x' := match lv.s[k]? with
+              | some sd => if how == "assign" && sd.idx == i then (el.ma sd.val x).1 else x
+              | none => x
+            ("ok", Spec.step el fb lv.s (.emplace k i x'))
       some (fin lv mres sres { lv with s := s' })
     | _, _, _, _ => none
   | "get_if" =>
@@ -264,12 +326,43 @@ def stepVar (lv : Live) (st : List (V Val)) (l : Line) : Option (DState × Strin
         some (fin lv mres ("calls=1 ret=1 " ++ String.join (svs.map fun v => item v.idx v.val)) lv)
       | _, _ => none
     | none => none
+  | "vcat" =>
+    -- value categories (0 T&, 1 T const&, 2 T&&, 3 T const&&): visit, unchecked_get and operator[] hand on the
+    -- category of the variant they are given ([variant.visit], [variant.get]); a by-value visitor (`vis=take`)
+    -- move constructs its parameter from an rvalue variant's alternative and copy constructs it otherwise.
+    -- Observed, not proved: there is no theorem behind this table.
+    match l.natList? "s", l.natList? "q", l.str? "vis" with
+    | some ks, some qs, some vis =>
+      let enabled := [[Ty.int, .trk], [.kq, .kx], [.int, .kd], [.trk, .int, .flt]].contains lv.tys
+      if !enabled || ks.length != qs.length || ks.isEmpty || ks.length > 2 || qs.any (· > 3)
+         || ks.any (· ≥ st.length) || (vis == "take" && ks.length == 2 && ks[0]? == ks[1]?) then none
+      else if vis == "take" then
+        let mres : Except Err (String × List (V Val)) := do
+          let vs ← ks.mapM (fun k => rd st k)
+          let t ← visitWithIndex (vs.map fun _ => lv.cfg.n) (vs.map (·.idx))
+          if t.length ≠ vs.length then .error (.pre "visit: arity")
+          let xs ← (vs.zip t).mapM fun (v, i) => getAt v i
+          let items := (xs.zip qs).map fun (x, q) => showV (if q == 2 then (el.mc x).1 else el.cc x) ++ ","
+          let st' ← ((ks.zip qs).zip xs).foldlM (fun acc ((k, q), x) =>
+            if q == 2 then (rd acc k).bind fun v => put acc k { v with val := (el.mc x).2 } else .ok acc) st
+          .ok ("take=" ++ String.join items, st')
+        let svs := ks.filterMap fun k => lv.s[k]?
+        let sitems := (svs.zip qs).map fun (v, q) => showV (if q == 2 then (el.mc v.val).1 else el.cc v.val) ++ ","
+        let s' := (ks.zip qs).foldl (fun acc (k, q) =>
+          match acc[k]? with
+          | some v => if q == 2 then acc.set k { v with val := (el.mc v.val).2 } else acc
+          | none => acc) lv.s
+        some (fin lv mres ("take=" ++ String.join sitems) { lv with s := s' })
+      else
+        let r := "cat=" ++ String.join (qs.map toString) ++ " ct=0123 get=0123 sub=0123"
+        some (fin lv (.ok (r, st)) r lv)
+    | _, _, _ => none
   | _ => none
 
 /-- optional: spec-side operation + its implementation on the variant member -/
 def optDo (lv : Live) (st : List (V Val)) (op : Spec.OOp Val) (res : String) : DState × String :=
   fin lv ((mop lv st (Spec.optToVar nullv op)).map fun st' => (res, st')) res
-    { lv with so := Spec.ostep mvd lv.so op }
+    { lv with so := Spec.ostep el lv.so op }
 
 def stepOpt (lv : Live) (st : List (V Val)) (l : Line) : Option (DState × String) :=
   let T := lv.tys.headD .int
@@ -281,11 +374,11 @@ def stepOpt (lv : Live) (st : List (V Val)) (l : Line) : Option (DState × Strin
     | some k, some how =>
       if !inR k then none
       else if how == "assign" then some (optDo lv st (.reset k) "ok")
-      else some (fin lv ((mop lv st (.make k 0 nullv)).bind ok) "ok" { lv with so := Spec.ostep mvd lv.so (.reset k) })
+      else some (fin lv ((mop lv st (.make k 0 nullv)).bind ok) "ok" { lv with so := Spec.ostep el lv.so (.reset k) })
     | _, _ => none
   | "emplace" =>
     match l.nat? "s", l.int? "v" with
-    | some k, some n => if inR k then some (optDo lv st (.emplace k (mkV T n)) ("ret=" ++ showV (mkV T n))) else none
+    | some k, some n => if inR k then some (optDo lv st (.emplace k (mkArg T n)) ("ret=" ++ showV (mkArg T n))) else none
     | _, _ => none
   | "val" =>
     match l.nat? "s", (l.str? "a").bind (fun s => s.toList.head?.bind tyOf), l.int? "v", l.str? "how" with
@@ -294,13 +387,25 @@ def stepOpt (lv : Live) (st : List (V Val)) (l : Line) : Option (DState × Strin
       else if !ctorOK a T then some (fin lv (.ok ("nc", st)) "nc" lv)
       else
         let x := convV T (mkV a n)
-        let lv' := { lv with so := Spec.ostep mvd lv.so (.emplace k x) }
+        -- [optional.assign] (U&&): engaged: `**this = forward<U>(v)`; empty: construct from it
+        let sx : Val := match lv.so[k]? with
+          | some (some d) => if how == "assign" then (el.ma d x).1 else x
+          | _ => x
+        let lv' := { lv with so := Spec.ostep el lv.so (.emplace k sx) }
         if how == "ctor" then some (fin lv ((mop lv st (.make k 1 x)).bind ok) "ok" lv')
-        else if T.isClass && a != T then some (fin lv ((mop lv st (.emplace k 1 x)).bind ok) "ok" lv')  -- operator=(U&&)
+        else if T.isClass && a != T then                -- operator=(U&&): assign through when engaged, else emplace
+          let mres : Except Err (String × List (V Val)) := do
+            let d ← rd st k
+            if hasValue d then do
+              let cur ← deref d
+              let st' ← put st k { d with val := (el.ma cur x).1 }
+              ok st'
+            else (mop lv st (.emplace k 1 x)).bind ok
+          some (fin lv mres "ok" lv')
         else                                        -- scalar T or U == T: optional(x) then move assignment
           let mres : Except Err (String × List (V Val)) := do
             let d ← rd st k
-            let (d', _) ← assign lv.cfg mvd true d ⟨1, x⟩
+            let (d', _) ← assign lv.cfg el true d ⟨1, x⟩
             let st' ← put st k d'
             ok st'
           some (fin lv mres "ok" lv')
@@ -331,15 +436,27 @@ def stepOpt (lv : Live) (st : List (V Val)) (l : Line) : Option (DState × Strin
       | none => none
       | some src =>
         if !inR k then none else
-        let sop : Spec.OOp Val := match src with | some u => .emplace k (convV T u) | none => .reset k
+        -- [optional.assign] (optional<U>): source empty: reset; both engaged: `**this = *other`; else construct
+        let sop : Spec.OOp Val := match src with
+          | some u =>
+            (match lv.so[k]? with
+             | some (some d) => if how == "assign" then .emplace k (el.ma d (convV T u)).1 else .emplace k (convV T u)
+             | _ => .emplace k (convV T u))
+          | none => .reset k
         let mres : Except Err (String × List (V Val)) := do
-          -- ctor: `_var{nullopt}` then `if (other.has_value()) emplace(*other)`;  assign: emplace(*other) / reset()
+          -- ctor: `_var{nullopt}` then `if (other.has_value()) emplace(*other)`;
+          -- assign: reset() / `**this = *other` when engaged / emplace(*other)
           let st0 ← if how == "ctor" then mop lv st (.make k 0 nullv) else .ok st
           let st1 ← match src with
-            | some u => mop lv st0 (.emplace k 1 (convV T u))
+            | some u => do
+              let d ← rd st0 k
+              if how == "assign" && hasValue d then do
+                let cur ← deref d
+                put st0 k { d with val := (el.ma cur (convV T u)).1 }
+              else mop lv st0 (.emplace k 1 (convV T u))
             | none => if how == "ctor" then .ok st0 else mop lv st0 (.emplace k 0 nullv)
           ok st1
-        some (fin lv mres "ok" { lv with so := Spec.ostep mvd lv.so sop })
+        some (fin lv mres "ok" { lv with so := Spec.ostep el lv.so sop })
     | _, _, _ => none
   | "rel" =>
     match l.nat? "s", l.nat? "with" with
@@ -395,12 +512,17 @@ def stepOpt (lv : Live) (st : List (V Val)) (l : Line) : Option (DState × Strin
       match st[k]?, lv.so[k]? with
       | some v, some sv =>
         if !mv && !lv.copyable then some (fin lv (.ok ("nc", st)) "nc" lv) else
+        -- the returned prvalue is copy constructed from `**this` / move constructed from `move(**this)`;
+        -- the fallback is `static_cast<T>(forward<U>(d))`: move constructed from the argument temporary
+        let ret (o : Option Val) : Val := match o with
+          | some x => if mv then (el.mc x).1 else el.cc x
+          | none => (el.mc (mkV T n)).1
         let mres : Except Err (String × List (V Val)) := do
           let r ← valueOr v (mkV T n)
-          let st' ← if mv && hasValue v then put st k { v with val := mvd v.val } else .ok st
-          .ok (showV r, st')
-        let so' := if mv then lv.so.set k (sv.map mvd) else lv.so
-        some (fin lv mres (showV (sv.getD (mkV T n))) { lv with so := so' })
+          let st' ← if mv && hasValue v then put st k { v with val := (el.mc v.val).2 } else .ok st
+          .ok (showV (ret (if hasValue v then some r else none)), st')
+        let so' := if mv then lv.so.set k (sv.map fun x => (el.mc x).2) else lv.so
+        some (fin lv mres (showV (ret sv)) { lv with so := so' })
       | _, _ => none
     | _, _ => none
   | "and_then" =>
@@ -408,7 +530,7 @@ def stepOpt (lv : Live) (st : List (V Val)) (l : Line) : Option (DState × Strin
     | some k, some f =>
       match st[k]?, lv.so[k]? with
       | some v, some sv =>
-        let g (x : Val) : Option Val := if f == "none" then none else some (bump x)
+        let g (x : Val) : Option Val := if f == "none" then none else some (el.mc (bump x)).1
         let sh (calls : Nat) (o : Option Val) : String := s!"calls={calls} " ++ (match o with | some x => showV x | none => "-")
         let mres : Except Err (String × List (V Val)) := do
           let r ← andThen v g
@@ -419,26 +541,51 @@ def stepOpt (lv : Live) (st : List (V Val)) (l : Line) : Option (DState × Strin
   | "or_else" =>
     (l.nat? "s").bind fun k =>
       let mv := (l.nat? "mv").getD 0 != 0
-      let alt : Option Val := (l.int? "v").map (mkV T)
+      let alt : Option Val := (l.int? "v").map (mkArg T)
       match st[k]?, lv.so[k]? with
       | some v, some sv =>
         if !mv && !lv.copyable then some (fin lv (.ok ("nc", st)) "nc" lv) else
         let sh (calls : Nat) (o : Option Val) : String := s!"calls={calls} " ++ (match o with | some x => showV x | none => "-")
         -- `*this ? *this : f()` / `*this ? move(*this) : f()`
         let mres : Except Err (String × List (V Val)) :=
+          (orElse v).bind fun o =>
+            match o with
+            | some x => do
+              let st' ← if mv then put st k { v with val := (el.mc x).2 } else .ok st
+              .ok (sh 0 (some (if mv then (el.mc x).1 else el.cc x)), st')
+            | none => .ok (sh 1 alt, st)
+        let so' := if mv then lv.so.set k (sv.map fun x => (el.mc x).2) else lv.so
+        some (fin lv mres (match sv with | some x => sh 0 (some (if mv then (el.mc x).1 else el.cc x)) | none => sh 1 alt)
+          { lv with so := so' })
+      | _, _ => none
+  | "ocat" =>
+    -- operator* and and_then hand on the value category of the optional ([optional.observe], [optional.monadic]);
+    -- `take=1`: `T x = *<category>(o)` move constructs from an rvalue optional, copy constructs otherwise.  Observed.
+    match l.nat? "s", l.nat? "q" with
+    | some k, some q =>
+      match st[k]?, lv.so[k]? with
+      | some v, some sv =>
+        if q > 3 then none
+        else if !lv.copyable then some (fin lv (.ok ("nc", st)) "nc" lv) else
+        let take := (l.nat? "take").isSome
+        let sh (has : Bool) (t : Option Val) : String :=
+          "deref=0123 at=" ++ (if has then toString q else "-1") ++ " take=" ++ (match t with | some x => showV x | none => "-")
+        let got (x : Val) : Val := if q == 2 then (el.mc x).1 else el.cc x
+        let mres : Except Err (String × List (V Val)) :=
           if hasValue v then do
             let x ← deref v
-            let st' ← if mv then put st k { v with val := mvd x } else .ok st
-            .ok (sh 0 (some x), st')
-          else .ok (sh 1 alt, st)
-        let so' := if mv then lv.so.set k (sv.map mvd) else lv.so
-        some (fin lv mres (match sv with | some x => sh 0 (some x) | none => sh 1 alt) { lv with so := so' })
+            let st' ← if take && q == 2 then put st k { v with val := (el.mc x).2 } else .ok st
+            .ok (sh true (if take then some (got x) else none), st')
+          else .ok (sh false none, st)
+        let so' := if take && q == 2 then lv.so.set k (sv.map fun x => (el.mc x).2) else lv.so
+        some (fin lv mres (sh sv.isSome (if take then sv.map got else none)) { lv with so := so' })
       | _, _ => none
+    | _, _ => none
   | _ => none
 
 def expDo (lv : Live) (st : List (V Val)) (viaEmplace : Bool) (op : Spec.EOp Val) (res : String) : DState × String :=
   fin lv ((mop lv st (Spec.expToVar viaEmplace op)).map fun st' => (res, st')) res
-    { lv with se := Spec.estep mvd lv.se op }
+    { lv with se := Spec.estep el fb lv.se op }
 
 def stepExp (lv : Live) (st : List (V Val)) (l : Line) : Option (DState × String) :=
   let T := lv.tys.headD .int
@@ -448,19 +595,19 @@ def stepExp (lv : Live) (st : List (V Val)) (l : Line) : Option (DState × Strin
   | "ctor_def" => (l.nat? "s").bind fun k => if inR k then some (expDo lv st false (.setVal k (mkV T 0)) "ok") else none
   | "ctor_val" =>
     match l.nat? "s", l.int? "v" with
-    | some k, some n => if inR k then some (expDo lv st false (.setVal k (mkV T n)) "ok") else none
+    | some k, some n => if inR k then some (expDo lv st false (.setVal k (mkArg T n)) "ok") else none
     | _, _ => none
   | "ctor_err" =>
     match l.nat? "s", l.int? "v" with
-    | some k, some n => if inR k then some (expDo lv st false (.setErr k (mkV E n)) "ok") else none
+    | some k, some n => if inR k then some (expDo lv st false (.setErr k (mkArg E n)) "ok") else none
     | _, _ => none
   | "emplace" =>
     match l.nat? "s", l.int? "v" with
-    | some k, some n => if inR k then some (expDo lv st true (.setVal k (mkV T n)) ("ret=" ++ showV (mkV T n))) else none
+    | some k, some n => if inR k then some (expDo lv st true (.setVal k (mkArg T n)) ("ret=" ++ showV (mkArg T n))) else none
     | _, _ => none
   | "assign_unex" =>   -- etl::expected has no operator=(unexpected<G>): known finding F-C07-expected-no-unexpected-assign
     match l.nat? "s", l.int? "v" with
-    | some k, some n => if inR k then some (fin lv (.ok ("nc", st)) ("ok=e:" ++ showV (mkV E n)) lv) else none
+    | some k, some n => if inR k then some (fin lv (.ok ("nc", st)) ("ok=e:" ++ showV (el.ma (mkV E 0) (mkArg E n)).1) lv) else none
     | _, _ => none
   | "assign" | "ctor" =>
     match l.nat? "s", l.nat? "from", l.nat? "mv" with
@@ -480,7 +627,7 @@ def stepExp (lv : Live) (st : List (V Val)) (l : Line) : Option (DState × Strin
       match st[k]?, lv.se[k]? with
       | some v, some sv =>
         let f (b : Bool) := fmtBool b ++ fmtBool b ++ fmtBool b
-        some (fin lv (.ok (f (v.idx == 0), st)) (f (match sv with | .val _ => true | .err _ => false)) lv)
+        some (fin lv (.ok (f (expHas v), st)) (f (match sv with | .val _ => true | .err _ => false)) lv)
       | _, _ => none
   | "value_or" =>
     match l.nat? "s", l.int? "v" with
@@ -490,14 +637,14 @@ def stepExp (lv : Live) (st : List (V Val)) (l : Line) : Option (DState × Strin
       | some v, some sv =>
         if !mv && T == .mo then some (fin lv (.ok ("nc", st)) "nc" lv) else
         let mres : Except Err (String × List (V Val)) :=
-          if v.idx == 0 then do
-            let x ← getAt v 0
-            let st' ← if mv then put st k { v with val := mvd x } else .ok st
-            .ok (showV x, st')
-          else .ok (showV (mkV T n), st)
+          if expHas v then do
+            let x ← expValueOr v (mkV T n)
+            let st' ← if mv then put st k { v with val := (el.mc x).2 } else .ok st
+            .ok (showV (if mv then (el.mc x).1 else el.cc x), st')
+          else (expValueOr v (mkV T n)).map fun d => (showV (el.mc d).1, st)
         let (sres, se') := match sv with
-          | .val x => (showV x, if mv then lv.se.set k (.val (mvd x)) else lv.se)
-          | .err _ => (showV (mkV T n), lv.se)
+          | .val x => (showV (if mv then (el.mc x).1 else el.cc x), if mv then lv.se.set k (.val (el.mc x).2) else lv.se)
+          | .err _ => (showV (el.mc (mkV T n)).1, lv.se)
         some (fin lv mres sres { lv with se := se' })
       | _, _ => none
     | _, _ => none
@@ -508,11 +655,11 @@ def stepExp (lv : Live) (st : List (V Val)) (l : Line) : Option (DState × Strin
       match st[k]?, lv.se[k]? with
       | some v, some sv =>
         if !lv.copyable then some (fin lv (.ok ("nc", st)) "nc" lv) else
-        let g (x : Val) : Spec.E Val := if f == "fail" then .err (mkV E n) else .val (bump x)
+        let g (x : Val) : Spec.E Val := if f == "fail" then .err (mkArg E n) else .val (el.mc (bump x)).1
         let mres : Except Err (String × List (V Val)) :=
-          if v.idx == 0 then (getAt v 0).map fun x => ("calls=1 " ++ fmtE (g x), st)
-          else (getAt v 1).map fun e => ("calls=0 " ++ fmtE (.err e), st)
-        some (fin lv mres (match sv with | .val x => "calls=1 " ++ fmtE (g x) | .err e => "calls=0 " ++ fmtE (.err e)) lv)
+          (expAndThen v (fun x => "calls=1 " ++ fmtE (g x)) (fun e => "calls=0 " ++ fmtE (.err (el.cc e)))).map   -- `U(unexpect, error())`
+            fun r => (r, st)
+        some (fin lv mres (sv.andThen (fun x => "calls=1 " ++ fmtE (g x)) (fun e => "calls=0 " ++ fmtE (.err (el.cc e)))) lv)
       | _, _ => none
     | _, _ => none
   | "or_else" =>
@@ -522,11 +669,32 @@ def stepExp (lv : Live) (st : List (V Val)) (l : Line) : Option (DState × Strin
       match st[k]?, lv.se[k]? with
       | some v, some sv =>
         if !lv.copyable then some (fin lv (.ok ("nc", st)) "nc" lv) else
-        let g (e : Val) : Spec.E Val := if f == "recover" then .val (mkV T n) else .err (bump e)
+        let g (e : Val) : Spec.E Val := if f == "recover" then .val (mkArg T n) else .err (el.mc (bump e)).1
         let mres : Except Err (String × List (V Val)) :=
-          if v.idx == 0 then (getAt v 0).map fun x => ("calls=0 " ++ fmtE (.val x), st)
-          else (getAt v 1).map fun e => ("calls=1 " ++ fmtE (g e), st)
-        some (fin lv mres (match sv with | .val x => "calls=0 " ++ fmtE (.val x) | .err e => "calls=1 " ++ fmtE (g e)) lv)
+          (expOrElse v (fun x => "calls=0 " ++ fmtE (.val (el.cc x))) (fun e => "calls=1 " ++ fmtE (g e))).map    -- `G(in_place, **this)`
+            fun r => (r, st)
+        some (fin lv mres (sv.orElse (fun x => "calls=0 " ++ fmtE (.val (el.cc x))) (fun e => "calls=1 " ++ fmtE (g e))) lv)
+      | _, _ => none
+    | _, _ => none
+  | "ecat" =>
+    -- operator*, error() and the argument and_then / or_else hand to f carry the value category of the expected
+    -- ([expected.object.obs], [expected.object.monadic]).  Observed, not proved.
+    match l.nat? "s", l.nat? "q" with
+    | some k, some q =>
+      match st[k]?, lv.se[k]? with
+      | some v, some sv =>
+        if q > 3 then none
+        else if !lv.copyable then some (fin lv (.ok ("nc", st)) "nc" lv) else
+        let sh (has : Bool) : String :=
+          "deref=0123 err=0123 at=" ++ (if has then toString q else "-1") ++ " oe=" ++ (if has then "-1" else toString q)
+        -- on an rvalue expected (q = 2) or_else moves the value out (`G(in_place, move(**this))`) and and_then moves the
+        -- error out (`U(unexpect, move(error()))`)
+        let mres : Except Err (String × List (V Val)) := do
+          let x ← getAt v v.idx
+          let st' ← if q == 2 then put st k { v with val := (el.mc x).2 } else .ok st
+          .ok (sh (v.idx == 0), st')
+        let se' := if q == 2 then lv.se.set k (match sv with | .val x => .val (el.mc x).2 | .err x => .err (el.mc x).2) else lv.se
+        some (fin lv mres (sh (match sv with | .val _ => true | .err _ => false)) { lv with se := se' })
       | _, _ => none
     | _, _ => none
   | _ => none
@@ -618,21 +786,20 @@ def newLive (l : Line) : Option Live :=
     | none => none
     | some tys =>
       let copyable := !tys.contains .mo
-      let triv := tys.all fun t => t == .int || t == .flt
-      let base : Live := { kind := kind, tys := tys, pty := .int, cfg := ⟨tys.length, triv⟩, copyable := copyable,
+      let base : Live := { kind := kind, tys := tys, pty := .int, cfg := cfgOf tys, copyable := copyable,
                            m := .ok [], s := [], so := [], se := [], part := [], mr := [], sr := [], mcells := [], scells := [] }
       match kind with
       | "var" =>
-        if !(["if", "fi", "it", "ti", "tif", "ift", "tm", "iftm", "fm"].contains alts) then none else
+        if !(["if", "fi", "it", "ti", "tif", "ift", "tm", "iftm", "fm", "ic", "id", "ia", "ib", "qx", "cb"].contains alts) then none else
         let d : V Val := ⟨0, mkV (tys.headD .int) 0⟩
         some { base with m := .ok (List.replicate n d), s := List.replicate n d }
       | "opt" =>
-        if !(["i", "f", "t", "m"].contains alts) then none else
+        if !(["i", "f", "t", "m", "c", "d", "a", "b", "x"].contains alts) then none else
         let d : V Val := ⟨0, nullv⟩
-        some { base with cfg := ⟨2, triv⟩, pty := (if alts == "i" then .lng else .int),
+        some { base with cfg := cfgOf (.null :: tys), pty := (if alts == "i" then .lng else .int),
                          m := .ok (List.replicate n d), so := List.replicate n none, part := List.replicate n none }
       | "exp" =>
-        if !(["it", "ti", "if", "tm"].contains alts) then none else
+        if !(["it", "ti", "if", "tm", "ic", "qx", "db"].contains alts) then none else
         let d : V Val := ⟨0, mkV (tys.headD .int) 0⟩
         some { base with m := .ok (List.replicate n d), se := List.replicate n (.val d.val) }
       | "oref" =>
